@@ -1,6 +1,7 @@
 import SSVerif.Model.S3file
 import SSVerif.Model.BinMdef
 import SSVerif.Model.Assembly
+import SSVerif.Model.S3fileLedger
 import Driver.Util
 /-! driver sub-command `c17`: runs the byte reader / read plans of `Model/S3file` on byte strings
 (hex or a file with an edit list) — same line protocol as `harness/h_c17.c s3`. -/
@@ -82,6 +83,101 @@ def site {α : Type} : Res α → String
   | .reject s => s
   | _ => "-"
 
+/-! ### ledger stage reached by a case (for the allocation-trace tie) -/
+open SSVerif.S3file.Ledger in
+def showLedger (stage : String) (evs : List Ev) (name : Nat → String) : String :=
+  let es := evs.map fun e => match e with
+    | .alloc i => s!"a{i}"
+    | .free i => s!"f{i}"
+  let ids := (evs.filterMap fun e => match e with
+    | .alloc i => some i
+    | _ => none).eraseDups
+  s!" ledger={stage}|{sepBy "," es}|{sepBy ";" (ids.map fun i => s!"{i}={name i}")}"
+
+def isChk (s : String) : Bool := s = "get(chksum) failed" || s = "Checksum error"
+
+open SSVerif.S3file.Ledger in
+def arrStage {α : Type} (r : Res α) : ArrStage :=
+  match r with
+  | .ok _ => .ok
+  | .reject s => if s = "get(arraydata) failed" then .data
+                 else if s = "array size does not match dimensions" then .mismatch else .dims
+  | _ => .dims
+
+open SSVerif.S3file.Ledger in
+def tmatStage (r : Res TmatOut) : TmatStage :=
+  match r with
+  | .ok _ => .ok
+  | .reject s => if s = "Failed to read transition matrix" then .row else if isChk s then .chksum else .header
+  | _ => .header
+
+open SSVerif.S3file.Ledger in
+def paramStage (r : Res GauOut) : ParamStage :=
+  match r with
+  | .ok _ => .ok
+  | .reject s =>
+    if isChk s then .chksum else if s = "Failed to read density data" then .data
+    else if s = "read (feature-lengths) failed" || s = "Bad feature length" || s = "Failed to read number of parameters"
+      || s = "Number of parameters doesn't match dimensions" || s = "File truncated" then .veclen
+    else .header
+  | _ => .header
+
+open SSVerif.S3file.Ledger in
+def gauStage (means vars : File) : GauStage :=
+  match gaudenParamPlan means with
+  | .ok _ =>
+    match gaudenParamPlan vars with
+    | .ok _ => match gaudenPlan means vars with
+      | .ok _ => .ok
+      | _ => .mismatch
+    | r => .vars (paramStage r)
+  | r => .means (paramStage r)
+
+open SSVerif.S3file.Ledger in
+def ldaStage (r : Res LdaOut) : LdaStage :=
+  match r with
+  | .ok _ => .ok
+  | .reject s =>
+    if isChk s then .chksum
+    else if s = "LDA matrix dimension doesn't match feature stream size" then .dims
+    else if s = "get(arraydata) failed" then .array .data
+    else if s = "array size does not match dimensions" then .array .mismatch
+    else if s = "get(dimension1) failed" || s = "get(dimension2) failed" || s = "get(dimension3) failed"
+      || s = "get(arraysize) failed" || s = "Bad arraysize" then .array .dims
+    else .header
+  | _ => .header
+
+open SSVerif.S3file.Ledger in
+def mdefStage (r : Res MdefOut) : MdefStage :=
+  match r with
+  | .ok _ => .ok
+  | .reject s =>
+    if s = "Phone refers to a nonexistent sseq, tmat or CI phone" || s = "senone >= n_sen" then .maps
+    else if s = "sseq size does not match" || s = "sseq_len truncated!" || s = "sseq size does not match the sequence lengths" then .seqs
+    else if s = "ciname truncated!" || s = "cd_tree truncated!" || s = "phone truncated!" || s = "sseq_size truncated!"
+      || s = "sseq truncated!" then .tables
+    else if s = "Inconsistent counts in header" || s.startsWith "Failed to read &m->" then .counts
+    else .pre
+  | _ => .pre
+
+open SSVerif.S3file.Ledger in
+def ptmStage (ctx : AcCtx) (means vars : File) (src : MixSrc) : PtmStage :=
+  match gaudenPlan means vars with
+  | .ok g =>
+    if g.nMgau > 256 || g.nMgau ≠ ctx.nCiphone then .checks else
+    match checkStreams ctx g with
+    | .ok _ =>
+      match src with
+      | .sendump f => match sendumpPlan f g.nFeat g.nDensity ctx.nSen with
+        | .ok _ => .okSd
+        | .reject s => if s = "Mixture weights truncated" then .sdRows else .sdHead
+        | _ => .sdHead
+      | .mixw f => match mixwPlan f g.nFeat g.nDensity with
+        | .ok m => if m.nSen ≠ ctx.nSen then .nsen else .okMx
+        | _ => .mxHead
+    | _ => .checks
+  | _ => .gauden
+
 def b2s (b : Bool) : String := if b then "1" else "0"
 
 /-- the `rd` script interpreter: stops at the first failing op -/
@@ -128,6 +224,21 @@ def runScript (f : File) (ops : List String) : String × String := Id.run do
     | other => return (sepBy " " ((showRes other fun _ => "") :: out).reverse, site other)
   return (sepBy " " out.reverse, "-")
 
+/-- scripts `H,<n>d<k>[,V]`: the ledger stage of the one array read (nothing when the header is refused) -/
+def arrLedger (f : File) (ops : List String) : String :=
+  match ops with
+  | "H" :: op :: rest =>
+    if rest ≠ [] ∧ rest ≠ ["V"] then "" else
+    match parseHeader (S.init f), op.toList with
+    | .ok s, [d, 'd', k] =>
+      let k := k.toNat - 48
+      if d = '1' then let r := get1d s k; showLedger (reprStr (arrStage r)) (Ledger.get1d false (arrStage r)) Ledger.arrName
+      else if d = '2' then let r := get2d s k; showLedger (reprStr (arrStage r)) (Ledger.get2d false (arrStage r)) Ledger.arrName
+      else if d = '3' then let r := get3d s k; showLedger (reprStr (arrStage r)) (Ledger.get3d false (arrStage r)) Ledger.arrName
+      else ""
+    | _, _ => ""
+  | _ => ""
+
 def natList (l : List Nat) : String := sepBy "," (l.map toString)
 
 def runCase (cache : IO.Ref Cache) (ws : List String) : IO String := do
@@ -136,25 +247,29 @@ def runCase (cache : IO.Ref Cache) (ws : List String) : IO String := do
     match ← loadSrc cache src ed with
     | some s =>
       let (o, st) := runScript s.file (script.splitOn ",")
-      pure s!"{id} {o} | site={st}"
+      pure (s!"{id} {o} | site={st}" ++ arrLedger s.file (script.splitOn ","))
     | none => pure s!"{id} bad-src"
   | [id, "tmat", src, ed] =>
     match ← loadSrc cache src ed with
     | some s =>
       let r := tmatPlan s.file
-      pure s!"{id} {showRes r fun o => s!"ok {o.nTmat} {o.nState}"} | site={site r}"
+      pure (s!"{id} {showRes r fun o => s!"ok {o.nTmat} {o.nState}"} | site={site r}"
+        ++ showLedger (reprStr (tmatStage r)) (Ledger.tmat false (tmatStage r)) Ledger.tmatName)
     | none => pure s!"{id} bad-src"
   | [id, "gau", srcm, edm, srcv, edv] =>
     match ← loadSrc cache srcm edm, ← loadSrc cache srcv edv with
     | some m, some v =>
       let r := gaudenPlan m.file v.file
-      pure s!"{id} {showRes r fun o => s!"ok {o.nMgau} {o.nFeat} {o.nDensity} {natList o.veclen}"} | site={site r}"
+      let st := gauStage m.file v.file
+      pure (s!"{id} {showRes r fun o => s!"ok {o.nMgau} {o.nFeat} {o.nDensity} {natList o.veclen}"} | site={site r}"
+        ++ showLedger ((reprStr st).replace " " "_") (Ledger.gauden st) Ledger.gauName)
     | _, _ => pure s!"{id} bad-src"
   | [id, "lda", src, ed, sl] =>
     match ← loadSrc cache src ed, sl.toNat? with
     | some s, some sl =>
       let r := ldaPlan s.file sl
-      pure s!"{id} {showRes r fun o => s!"ok {o.nLda} {o.rows} {o.cols}"} | site={site r}"
+      pure (s!"{id} {showRes r fun o => s!"ok {o.nLda} {o.rows} {o.cols}"} | site={site r}"
+        ++ showLedger ((reprStr (ldaStage r)).replace " " "_") (Ledger.lda false false (ldaStage r)).1 Ledger.arrName)
     | _, _ => pure s!"{id} bad-src"
   | [id, "sd", src, ed, gf, gd, ms] =>
     match ← loadSrc cache src ed, gf.toNat?, gd.toNat?, ms.toNat? with
@@ -172,9 +287,13 @@ def runCase (cache : IO.Ref Cache) (ws : List String) : IO String := do
     match ← loadSrc cache src ed with
     | some s =>
       let r := mdefPlan s.file
-      pure s!"{id} {showRes r fun o =>
+      pure (s!"{id} {showRes r fun o =>
         let h := o.hdr; let l := o.lay
         s!"ok {b2s h.swap} {h.nCiphone} {h.nPhone} {h.nEmit} {h.nCiSen} {h.nSen} {h.nTmat} {h.nSseq} {h.nCdTree} {o.sil} {l.treeOff - h.dataOff} {l.phoneOff - h.dataOff} {l.sseqOff - h.dataOff} {mapHash o.cd2cisen} {mapHash o.sen2cimap}"} | site={site r}"
+        ++ (let sw := match mdefHeader s.file with
+              | .ok h => h.swap
+              | _ => false
+            showLedger (reprStr (mdefStage r)) (Ledger.mdef sw (mdefStage r)) Ledger.mdefName))
     | none => pure s!"{id} bad-src"
   | [id, "sen", src, ed] =>
     match ← loadSrc cache src ed with
@@ -187,6 +306,16 @@ def runCase (cache : IO.Ref Cache) (ws : List String) : IO String := do
     match ← loadSrc cache ms me, ← loadSrc cache ts te, ← loadSrc cache mns mne, ← loadSrc cache vs ve, ← loadSrc cache xs xe with
     | some m, some t, some mn, some v, some x =>
       let src := if kind = "sd" then MixSrc.sendump x.file else MixSrc.mixw x.file
+      if ct = "2" then
+        -- the PTM loader alone (behind an accepted model definition and transition matrices), with its ledger stage
+        match mdefPlan m.file, tmatPlan t.file with
+        | .ok mo, .ok _ =>
+          let ctx : AcCtx := { nCiphone := mo.hdr.nCiphone, nSen := mo.hdr.nSen, sen2cimap := mo.sen2cimap, streams := sl }
+          let r := ptmPlan ctx mn.file v.file src
+          let st := ptmStage ctx mn.file v.file src
+          pure (s!"{id} {showRes r fun _ => "ok ptm"} | site={site r}" ++ showLedger (reprStr st) (Ledger.ptm st) Ledger.ptmName)
+        | _, _ => pure s!"{id} rej | site=mdef/tmat"
+      else
       let r := acmodLoadPlan m.file t.file mn.file v.file src sl (ct = "1")
       pure s!"{id} {showRes r fun o => match o with | .ptm => "ok ptm" | .s2 => "ok s2_semi" | .ms => "ok ms"} | site={site r}"
     | _, _, _, _, _ => pure s!"{id} bad-src"
